@@ -22,7 +22,11 @@ paired with the matching cache_memory adjustment under the bucket lock and only 
 Not decided: on/off result equality over workloads; CLOCK eviction quality.
 """
 DECIDED = ["keyed API only from the store", "generation-match guards on hit / remove / overwrite", "invalidate on every replace/remove",
-           "byte accounting pairing under the bucket lock"]
+           "byte accounting pairing under the bucket lock",
+           'expiry is tested before any value tier, the cache included (shared with C11.lazy)',
+           'clear() sums and empties a bucket in one critical section',
+           'invalidation on the write path takes the bucket lock blocking',
+           'watermark arithmetic']
 NOT_DECIDED = ["on/off result equality over workloads", "eviction brings usage to the low watermark / second-chance quality"]
 ASSUMPTIONS = []
 
